@@ -95,6 +95,21 @@ def dotted(node: ast.AST) -> Optional[str]:
     return None
 
 
+class _SuppressAsTry(ast.NodeTransformer):
+    """`with contextlib.suppress(A, B): BODY` is `try: BODY / except (A, B): pass` written differently.  Every module is indexed in the
+    second form, so that the rules about handlers (what is swallowed, what a failing path still does) see one construct."""
+
+    def visit_With(self, node: ast.With):
+        self.generic_visit(node)
+        if len(node.items) == 1 and node.items[0].optional_vars is None:
+            c = node.items[0].context_expr
+            if isinstance(c, ast.Call) and (dotted(c.func) or "").split(".")[-1] == "suppress" and c.args and not c.keywords:
+                typ = c.args[0] if len(c.args) == 1 else ast.copy_location(ast.Tuple(elts=list(c.args), ctx=ast.Load()), c)
+                handler = ast.copy_location(ast.ExceptHandler(type=typ, name=None, body=[ast.copy_location(ast.Pass(), node)]), node)
+                return ast.copy_location(ast.Try(body=node.body, handlers=[handler], orelse=[], finalbody=[]), node)
+        return node
+
+
 class Index:
     """Parsed working tree + symbol tables."""
 
@@ -134,6 +149,8 @@ class Index:
                     tree = ast.parse(src, filename=path)
                 except SyntaxError as e:
                     raise AnalysisError(f"{rel} does not parse: {e}")
+                tree = _SuppressAsTry().visit(tree)
+                ast.fix_missing_locations(tree)
                 self.units[modname] = Unit(modname, path, rel, src, tree, is_pkg)
 
     # ---- indexing
